@@ -5,7 +5,8 @@
 // virtual clock, and an oracle written from the property text.
 //
 //	l3 new k=v …                       build world + pipeline (see parseSpec)
-//	l3 q <name> <type> [do] [cd]       client query; the reply is judged
+//	l3 q <name> <type> [do] [cd] [ecs] [wire]   client query (ecs: carries a client-subnet option; wire: arrives as raw bytes,
+//	                                   undecoded, like on the UDP listener); the reply is judged
 //	l3 adv <ms>                        advance the virtual clock
 //	l3 end <zone> <delta_ms>           advance to the oracle's lease end of <zone> (+delta)
 //	l3 withdraw <zone>                 the parent removes the delegation (old servers stay alive)
@@ -23,6 +24,7 @@
 package main
 
 import (
+	"context"
 	"fmt"
 	"os"
 	"net"
@@ -35,8 +37,10 @@ import (
 	"github.com/semihalev/sdns/config"
 	"github.com/semihalev/sdns/internal/authority"
 	icache "github.com/semihalev/sdns/internal/cache"
+	"github.com/semihalev/sdns/internal/mock"
 	"github.com/semihalev/sdns/internal/verif/l3"
 	"github.com/semihalev/sdns/internal/verif/vlib"
+	"github.com/semihalev/sdns/middleware"
 	"github.com/semihalev/sdns/middleware/cache"
 	"github.com/semihalev/sdns/middleware/resolver"
 )
@@ -911,7 +915,7 @@ func execQuery(s *scenario, f []string) vlib.Res {
 		return vlib.Res{Impl: "bad-op"}
 	}
 	fl := l3.Flags{}
-	withECS := false
+	withECS, wireBorn := false, false
 	for _, x := range f[4:] {
 		switch x {
 		case "do":
@@ -920,9 +924,41 @@ func execQuery(s *scenario, f []string) vlib.Res {
 			fl.CD = true
 		case "ecs":
 			withECS = true // the client's query carries an EDNS Client Subnet option
+		case "wire":
+			wireBorn = true // the query arrives as raw bytes on a UDP listener (Chain.ResetWire), undecoded
 		}
 	}
 	ask := func() *dns.Msg {
+		if wireBorn {
+			q := new(dns.Msg)
+			q.SetQuestion(dns.Fqdn(f[2]), qt)
+			s.ecsID++
+			q.Id = uint16(50000 + s.ecsID)
+			q.RecursionDesired = true
+			q.CheckingDisabled = fl.CD
+			q.SetEdns0(1232, fl.DO)
+			if withECS {
+				o := q.IsEdns0()
+				o.Option = append(o.Option, &dns.EDNS0_SUBNET{Code: dns.EDNS0SUBNET, Family: 1, SourceNetmask: 24, Address: net.IPv4(198, 51, 100, 0).To4()})
+			}
+			raw, err := q.Pack()
+			req := new(middleware.Request)
+			if err != nil || !req.ParseWire(raw, time.Now(), nil) {
+				return nil
+			}
+			w := mock.NewWriter("udp", "10.1.2.3:4242")
+			ch := s.p.P.NewChain()
+			defer s.p.P.PutChain(ch)
+			ch.ResetWire(w, req)
+			ctx, cancel := context.WithTimeout(context.Background(), s.p.Cfg.QueryTimeout.Duration)
+			defer cancel()
+			ch.Next(ctx)
+			defer ch.Finish()
+			if !w.Written() {
+				return nil
+			}
+			return w.Msg()
+		}
 		if !withECS {
 			return s.p.Query(f[2], qt, fl)
 		}
@@ -1569,6 +1605,9 @@ func genL3Case(r *vlib.R, n int, emit func(string)) int {
 		}
 		if ecsMode == 1 || (ecsMode == 2 && r.Chance(1, 6)) {
 			s += " ecs" // a client behind an ECS-adding forwarder: its hits may claim the prefetch
+		}
+		if r.Chance(1, 4) {
+			s += " wire" // raw bytes on the UDP listener instead of a decoded message
 		}
 		return s
 	}
